@@ -15,12 +15,14 @@ git -C /repo archive HEAD | tar -x -C "$W/formula"
 log() { echo "$*" | tee -a "$W/ran.txt"; }
 cd "$W/formula"
 cp "$SRC/demo_test.go" ./zz_demo_test.go
-if go test -vet=off -count=1 -run 'Demo|demo' ./... >"$W/demo_clean.log" 2>&1; then log "demo on unmodified HEAD: PASS"; else log "demo on unmodified HEAD: FAIL (rejecting)"; tail -5 "$W/demo_clean.log"; rm -rf "$W"; exit 1; fi
+RACE=""
+if python3 -c "import json,sys;sys.exit(0 if json.load(open(sys.argv[1])).get('demo_needs_race') else 1)" "$SRC/meta.json" 2>/dev/null; then RACE="-race"; fi
+if timeout 600 go test $RACE -vet=off -count=1 ./... >"$W/demo_clean.log" 2>&1; then log "demo on unmodified HEAD: PASS"; else log "demo on unmodified HEAD: FAIL (rejecting)"; tail -5 "$W/demo_clean.log"; rm -rf "$W"; exit 1; fi
 rm zz_demo_test.go
 if ! git apply --whitespace=nowarn "$SRC/patch.diff" 2>"$W/apply.log" && ! patch -p1 -s < "$SRC/patch.diff" >"$W/apply.log" 2>&1; then log "patch does not apply: $(head -2 "$W/apply.log")"; rm -rf "$W"; exit 1; fi
 if go test -vet=off -count=1 ./... >"$W/suite.log" 2>&1; then log "repository suite with the change: PASS"; else log "repository suite with the change: FAIL (rejecting)"; tail -5 "$W/suite.log"; rm -rf "$W"; exit 1; fi
 cp "$SRC/demo_test.go" ./zz_demo_test.go
-if timeout 300 go test -vet=off -count=1 -run 'Demo|demo' ./... >"$W/demo_mut.log" 2>&1; then log "demo with the change: PASS (rejecting: demo does not fail)"; rm -rf "$W"; exit 1; else log "demo with the change: FAIL (as required)"; fi
+if timeout 600 go test $RACE -vet=off -count=1 ./... >"$W/demo_mut.log" 2>&1; then log "demo with the change: PASS (rejecting: demo does not fail)"; rm -rf "$W"; exit 1; else log "demo with the change: FAIL (as required)"; fi
 rm zz_demo_test.go
 caught=""
 for c in $CHECKS; do
